@@ -1073,11 +1073,15 @@ func c01Class(in c01Input, wtRel string, ch c01Chunking, ext string) string {
 		parts = append(parts, "pointer-split-across-reads")
 	case short && fr > 0 && c01ImplParses(in.Data[:fr]):
 		parts = append(parts, "first-read-ends-on-pointer-boundary")
-	case wtRel == "shorter":
-		parts = append(parts, "worktree-file-shorter-than-stream")
 	case short:
 		parts = append(parts, "short-first-read")
-	default:
+	}
+	if wtRel == "shorter" {
+		parts = append(parts, "worktree-file-shorter-than-stream")
+	} else if wtRel == "longer" {
+		parts = append(parts, "worktree-file-longer-than-stream")
+	}
+	if len(parts) == 0 {
 		parts = append(parts, "kind="+in.Kind+",size"+c01SizeBucket(n))
 	}
 	if ext != "" {
